@@ -92,14 +92,17 @@ def judge(ctx, r, reply, case, site, opts, conc):
             else:
                 ctx.fail('dup-request', 'plain', case, '%s requested twice' % u)
         seen.add(u)
-    expect, _ = ref.reach(start)
+    expect, _ = ref.reach_any(start)
     missing = set(expect) - seen
     extra = seen - set(expect)
     if missing:
-        if opts['level'] and conc > 1:
-            ctx.fail('missing-url', 'depth-race', case, 'in scope but never requested: %s' % sorted(missing))
-        else:
-            ctx.fail('missing-url', 'plain', case, 'in scope but never requested: %s' % sorted(missing))
+        why = ref.explain_missing(missing, r['rows_raw'], start)
+        for where in sorted(set(why.values())):
+            us = sorted(u for u in missing if why[u] == where)
+            ctx.fail('missing-url', where, case, 'in scope but never requested (%s): %s' % (
+                {'plain': 'its stored record is in scope or it was never stored although its parents were handled with their best record',
+                 'depth-race': 'stored, or its parent stored, with the depth of a longer path: first record wins',
+                 'requisite-shadowed': 'stored, or its parent stored, as an ordinary link although it is also a page requisite: first record wins'}[where], us))
     if extra:
         ctx.fail('extra-request', 'crawl', case, 'requested although not reachable in scope: %s' % sorted(extra))
 
